@@ -51,8 +51,15 @@ def doctrans(filename, docstring_format, type_annotations, no_word_wrap):
         # Maintaining all other existing whitespace, comments, &etc.
         doctransify_cst(cst_list, node)
 
-        with open(filename, "wt") as f:
-            f.write("".join(map(attrgetter("value"), cst_list)))
+        new_source: str = "".join(map(attrgetter("value"), cst_list))
+        try:
+            with open(filename, "wt") as f:
+                f.write(new_source)
+        except BaseException:
+            # Edited in place: never leave the file truncated or half-written on failure
+            with open(filename, "wt") as f:
+                f.write(original_source)
+            raise
 
 
 __all__ = ["doctrans"]  # type: list[str]
